@@ -783,7 +783,8 @@ func auditFunc(c *Ctx, fn *ssa.Function, resid map[string]bool) []BoundsResult {
 			act = s
 		}
 		u := g.U
-		rc, ok := act.RC[st.in.Block()]
+		_, ok := act.RC[st.in.Block()]
+		rc := act.RCAt(st.in)
 		if !ok {
 			r.Verdict = "lin"
 			r.Why = "unreachable block"
